@@ -1,27 +1,23 @@
-"""Per-property configuration of the checks (see DESIGN.md §3)."""
+"""Per-property configuration of the checks: collected from lib/props.d/Cxx.py
+(each defines PROP = dict(...) and optionally ENGINE = dict(...), NOT_APPLICABLE = "reason")."""
+import glob, importlib.util, os
 
 COMMON_TB = [
     "SQLite transactions atomic/durable at commit (modelled, not verified)",
     "go.sia.tech/core and coreutils behave as documented (consensus diffs, Currency arithmetic, signatures, Merkle roots)",
 ]
 
-PROPS = {
-    "C20": dict(
-        engine="registry", harness="registry", driver="drv_registry",
-        props=["Hostd.Props.C20"],
-        quick=dict(n=160, len=40, shards=8, timeout=300),
-        thorough=dict(n=6000, len=80, shards=16, timeout=1500),
-        nontrivial=r"res=ok", min_ops=5, min_kinds=2,
-        trusted_base=COMMON_TB + ["protocol ordering ValidateRegistryUpdate transcribed in Model/Registry.supersedes and cross-checked on every put",
-                                   "ValidateRegistryEntry result (signature, type, size) computed by core and passed to the model as `valid`"],
-        level_text="Put/Get/limit semantics proved in Lean for every operation sequence (last accepted write wins, accept iff valid and superseding or new below the limit, rejected = no change, count = metric, count never raised at/above the limit); the model is tied to the code by replaying seeded operation sequences run on the real registry.Manager + sqlite.Store through the compiled model driver",
-        level_note="trusted: Lean kernel (+propext, Quot.sound), core's ValidateRegistryEntry verdict passed as input, harness canonicalisation; SQLite atomicity assumed",
-        assumptions=["'never exceeds the limit' read as: no Put raises the count at or above the limit in force (DESIGN §6.4)"],
-    ),
-}
-
-NOT_APPLICABLE = {}
-
-ENGINES = [
-    dict(name="registry", path="lean/Hostd/Model/Registry.lean + harness/src/registry", serves_properties=["C20"], kind_free_text="Lean model + theorems; Go differential harness on real registry.Manager/sqlite.Store"),
-]
+PROPS, NOT_APPLICABLE, ENGINES = {}, {}, []
+_d = os.path.join(os.path.dirname(os.path.abspath(__file__)), "props.d")
+for _f in sorted(glob.glob(os.path.join(_d, "C*.py"))):
+    _pid = os.path.basename(_f)[:-3]
+    _spec = importlib.util.spec_from_file_location("props_" + _pid, _f)
+    _m = importlib.util.module_from_spec(_spec)
+    _m.COMMON_TB = COMMON_TB
+    _spec.loader.exec_module(_m)
+    if hasattr(_m, "PROP"):
+        PROPS[_pid] = _m.PROP
+    if hasattr(_m, "NOT_APPLICABLE"):
+        NOT_APPLICABLE[_pid] = _m.NOT_APPLICABLE
+    if hasattr(_m, "ENGINE"):
+        ENGINES.append(_m.ENGINE)
